@@ -191,8 +191,8 @@ def checkpoint(it, ctx, case, where):
             try:
                 if str(uuid.UUID(hid)) != hid:
                     ctx.violation("C03/id/not-canonical-uuid", case, {"id": hid})
-            except ValueError:
-                ctx.violation("C03/id/not-a-uuid", case, {"id": hid})
+            except (ValueError, TypeError, AttributeError):
+                ctx.violation("C03/id/not-a-uuid", case, {"id": repr(hid)[:60]})
             if hid in seen_ids:
                 ctx.violation("C03/id/duplicate", case, {"a": seen_ids[hid], "b": e.path()[:120]})
             seen_ids[hid] = e.path()[:120]
